@@ -1,0 +1,21 @@
+# Verification probes (add-only instrumentation).
+#
+# Disabled unless the environment variable STACKSCOPE_VERIF=1 is set when
+# stackscope is imported. When enabled, the library calls point(name, **fields)
+# at a few internal linearization points; a test harness may install a `sink`
+# callable to log the event or to block the calling thread there (turning the
+# point into a deterministic scheduling point). With no sink installed, or with
+# the guard off, nothing happens.
+
+import os
+from typing import Any, Callable, Optional
+
+ENABLED: bool = os.environ.get("STACKSCOPE_VERIF") == "1"
+
+sink: Optional[Callable[[str, dict], None]] = None
+
+
+def point(name: str, **fields: Any) -> None:
+    s = sink
+    if s is not None:
+        s(name, fields)
